@@ -1200,6 +1200,10 @@ fn valid_facts(tx: &Transaction, idx: usize, prevouts: &[TxOut], script_sig: &Sc
     impl Sink { fn line(&mut self, l: &str, _: &str) { self.0.push(l.trim_start_matches("D ").to_string()); } }
     let mut sink = Sink(vec![]);
     let out = &mut sink;
+    // a signature that occurs neither in the witness nor in the scriptSig cannot reach a CHECKSIG
+    let present: Vec<(Vec<u8>, Vec<u8>)> = candidates.iter().filter(|(_, sig)|
+        witness.iter().any(|w| w == sig) || contains_sub(script_sig.as_bytes(), sig)).cloned().collect();
+    let candidates = &present[..];
     let prevout = &prevouts[idx];
     let spk = &prevout.script_pubkey;
     let mut cache = SighashCache::new(tx);
@@ -1302,7 +1306,12 @@ fn verdict(out: &mut Out, name: &str, input: &str, bad: Option<String>) {
 }
 
 /// Drive one history on one case; emits the C line after every operation and all judges.
-fn run_history(out: &mut Out, case: &Case, hist: &[Op], judged: &mut BTreeSet<String>) {
+fn run_history(out: &mut Out, case: &Case, hist: &[Op], judged: &mut BTreeSet<String>) { run_history_from(out, case, hist, judged, 0) }
+
+/// as `run_history`, but the lines (C and J) of the first `from_step` operations are not emitted
+/// (they are applied, and their oracle values recorded, all the same): designated passes that share
+/// a long common prefix judge only what follows it
+fn run_history_from(out: &mut Out, case: &Case, hist: &[Op], judged: &mut BTreeSet<String>, from_step: usize) {
     let setup = setup_tok(case);
     let mut p = case.psbt0.clone();
     let mut oracle = Oracle::default();
@@ -1316,6 +1325,7 @@ fn run_history(out: &mut Out, case: &Case, hist: &[Op], judged: &mut BTreeSet<St
             if obs_done.insert(t.clone()) { out.count(&format!("observation: satisfiable by the descriptor but not from the PSBT's fields: {}", if t.contains("or_i(") || t.contains("ln:") || t.contains("l:") { "legacy script with or_i is refused by the decoder" } else { "a pkh() key to be pushed without signature is known only as a compressed key (bip32_derivation)" })); }
         }
         sofar.push(op.clone());
+        if sofar.len() <= from_step { continue; }
         let h = hist_tok(&sofar);
         out.line(&format!("C psbtstep {} {} {}", setup, h, oracle.tok()), &format!("{} {}", res, abs_state(&p)));
         out.count(&format!("op {} {}", op.tok().chars().next().unwrap(), if res.starts_with("ok") { "ok".to_string() } else { res.split(|c| c == ':' || c == '@').take(2).collect::<Vec<_>>().join(":") }));
@@ -1375,6 +1385,12 @@ fn run_history(out: &mut Out, case: &Case, hist: &[Op], judged: &mut BTreeSet<St
                 match op { Op::FinInp(j) | Op::FinInpMall(j) => { if *j != i && !same { bad = Some(format!("input{}-not-targeted-but-changed", i)); } }, _ => {} }
             }
             if matches!(op, Op::FinInp(_) | Op::FinInpMall(_)) && res.starts_with("err") && p.serialize() != before.serialize() { bad = Some("failing-finalize_inp-changed-psbt".into()); }
+            if matches!(op, Op::OldFin | Op::OldFinMall) && res.starts_with("err") {
+                // the deprecated loop stops at the first failing input: that input and every later one
+                // are byte-identical (a sanity_check failure: the whole PSBT is)
+                let first = (0..p.inputs.len()).find(|j| !is_final(&p.inputs[*j])).unwrap_or(p.inputs.len());
+                for j in first..p.inputs.len() { if p.inputs[j] != before.inputs[j] { bad = Some(format!("input{}-changed-after-the-failing-input", j)); } }
+            }
             if p.unsigned_tx != before.unsigned_tx || p.outputs != before.outputs { bad = Some("tx-or-outputs-changed".into()); }
             verdict(out, "atomic", &id, bad);
             // idempotent: the same call again returns the same class and changes nothing
@@ -1413,6 +1429,20 @@ fn run_history(out: &mut Out, case: &Case, hist: &[Op], judged: &mut BTreeSet<St
                     }
                 }
             }
+        }
+        if *op == Op::Extract {
+            // `psbt::interpreter_check` (public) is the check `extract` runs: both accept or both refuse
+            // whenever every input is final and the sanity check passes
+            let all_final = p.inputs.iter().all(is_final);
+            let ic = catch_unwind(AssertUnwindSafe(|| miniscript::psbt::interpreter_check(&p, secp()).is_ok()));
+            let bad = match ic {
+                Err(_) => Some("interpreter_check-panics".to_string()),
+                Ok(okc) => if all_final && res.starts_with("ok") && !okc { Some("extract-ok-but-interpreter_check-fails".into()) }
+                           else if all_final && res.starts_with("err:Interpreter") && okc { Some("extract-refuses-but-interpreter_check-ok".into()) } else { None },
+            };
+            verdict(out, "interpreter-check-agrees", &id, bad);
+            // extract takes &self: nothing may change
+            if p.serialize() != before.serialize() { verdict(out, "atomic", &format!("{} extract", id), Some("extract-changed-psbt".into())); }
         }
         if *op == Op::Extract && res.starts_with("ok") {
             if let Ok(tx) = p.extract(secp()) {
@@ -2016,6 +2046,215 @@ fn designated_lock_cases(out: &mut Out, pool: &[Spec], judged: &mut BTreeSet<Str
     }
 }
 
+/// R1 - EVERY finalize entry point on EVERY descriptor of the pool: from the fully signed single-input
+/// PSBT each of finalize_mut / finalize_mall_mut / finalize_inp_mut / finalize_inp_mall_mut / deprecated
+/// psbt::finalize / psbt::finalize_mall is applied (one C psbtstep line + all judges per route; the
+/// by-value wrappers ride on `J byvalue-agrees`, the extractor and `interpreter_check` on the last).
+fn all_routes(out: &mut Out, spec: &Spec, rng: &mut Rng, judged: &mut BTreeSet<String>) {
+    let case = build_case_with(vec![spec.clone()], rng, &CaseOpts { version: Some(2), seqs: vec![spec.olders.iter().cloned().max_by_key(|o| (o & 0xffff, *o))] });
+    let mut base = progress_ops(&case, 0);
+    if base.len() > 10 { let cut = base.len() - 10; base.drain(1..1 + cut); }
+    let n0 = base.len();
+    for route in [vec![Op::FinMall], vec![Op::FinInpMall(0)], vec![Op::OldFin], vec![Op::OldFinMall, Op::Extract]] {
+        let mut h = base.clone();
+        h.extend(route);
+        out.count("route pass");
+        run_history_from(out, &case, &h, judged, n0);
+    }
+}
+
+/// R2 - descriptors the library REFUSES today, one reason each.  If a rule ever lets one through the
+/// sane parser it joins the pool (and every judge); in any case the script is pushed through the
+/// finalizer by the permissive constructors (`from_str_insane` + `new_wsh` / `new_sh` / `new_sh_wsh`),
+/// where validity, atomicity, idempotence and the model correspondence are judged all the same - a
+/// finalizer works on whatever script the PSBT carries.
+const REFUSED_TODAY: &[(&str, &str)] = &[
+    ("repeated key pk/pk", "or_d(pk(K0),and_v(v:pk(K0),older(10)))"),
+    ("repeated key pk/pkh", "or_d(pk(K0),and_v(v:pkh(K0),older(10)))"),
+    ("repeated key pkh/pkh", "or_d(pkh(K0),and_v(v:pkh(K0),older(10)))"),
+    ("repeated key pk/multi", "or_d(pk(K0),and_v(v:multi(1,K0,K1),older(10)))"),
+    ("repeated key in multi", "multi(2,K0,K0,K1)"),
+    ("mixed lock units after", "and_v(v:pk(K0),and_v(v:after(100),after(500000001)))"),
+    ("mixed lock units older", "and_v(v:pk(K0),and_v(v:older(10),older(4194305)))"),
+    ("sigless branch", "or_d(pk(K0),and_v(v:sha256(H0),older(10)))"),
+    ("malleable or_i of hashes", "and_v(v:pk(K0),or_i(sha256(H0),hash160(H1)))"),
+    ("malleable or_b of hashes", "and_v(v:pk(K0),or_b(sha256(H0),a:ripemd160(H2)))"),
+    ("unsatisfiable branch", "or_d(pk(K0),and_v(v:pk(K1),0))"),
+    ("older(0)", "and_v(v:pk(K0),older(0))"),
+];
+
+/// whole descriptors refused today by a context rule (no permissive constructor builds them): judged
+/// by everything the day the parser lets one through
+const REFUSED_CONTEXT: &[(&str, &str)] = &[
+    ("uncompressed key in segwit v0", "wsh(pk(K10))"), ("uncompressed key in sh-wsh", "sh(wsh(pk(K10)))"), ("uncompressed key in wpkh", "wpkh(K10)"),
+    ("multi_a outside taproot", "wsh(multi_a(1,K0,K1))"), ("multi in taproot", "tr(K0,multi(1,K1,K2))"), ("older(0)", "wsh(and_v(v:pk(K0),older(0)))"),
+    ("after(0)", "wsh(and_v(v:pk(K0),after(0)))"), ("bare non-standard", "and_v(v:pk(K0),pk(K1))"), ("21-key multi", "wsh(multi(1,K0,K1,K2,K3,K4,K5,K6,K7,K8,K9,K12,K13,K14,K0,K1,K2,K3,K4,K5,K6,K7))"),
+    ("top level not B", "wsh(v:pk(K0))"), ("nested sh", "sh(sh(pk(K0)))"), ("wsh in wsh", "wsh(wsh(pk(K0)))"),
+];
+
+fn refused_today(out: &mut Out, rng: &mut Rng, judged: &mut BTreeSet<String>) {
+    use miniscript::{Legacy, Miniscript, Segwitv0};
+    for (reason, tmpl) in REFUSED_CONTEXT {
+        match spec_from_tmpl(tmpl) {
+            None => out.count(&format!("designated-odd {}: refused by the parser (judged the day it is accepted)", reason)),
+            Some(spec) => {
+                if matches!(spec.kind, Kind::Wpkh | Kind::ShWpkh) && !key(spec.keys[0]).public.compressed {
+                    // no BIP143 digest exists for an uncompressed key hash: nothing can be signed
+                    // (what the parser accepts is C12's subject: an observation here)
+                    out.count(&format!("observation: designated-odd {} ACCEPTED by the parser, nothing to sign (no BIP143 digest)", reason));
+                    continue;
+                }
+                out.count(&format!("designated-odd {}: ACCEPTED by the parser -> judged", reason));
+                let case = build_case_with(vec![spec.clone()], rng, &CaseOpts { version: Some(2), seqs: vec![None] });
+                let mut h = progress_ops(&case, 0);
+                h.extend([Op::FinInp(0), Op::FinMall, Op::Extract]);
+                if h.len() > 12 { let cut = h.len() - 12; h.drain(1..1 + cut); }
+                run_history(out, &case, &h, judged);
+            }
+        }
+    }
+    for (reason, ms) in REFUSED_TODAY {
+        for wrap in ["wsh(@)", "sh(wsh(@))", "sh(@)", "tr(K9,@)"] {
+            let tmpl = wrap.replace('@', ms);
+            let (spec, how) = match spec_from_tmpl(&tmpl) {
+                Some(s) => { (Some(s), "ACCEPTED-by-the-sane-parser") }
+                None => {
+                    let text = expand(ms);
+                    let d: Option<Descriptor<DefiniteDescriptorKey>> = match wrap {
+                        "wsh(@)" => Miniscript::<DefiniteDescriptorKey, Segwitv0>::from_str_insane(&text).ok().and_then(|m| Descriptor::new_wsh(m).ok()),
+                        "sh(wsh(@))" => Miniscript::<DefiniteDescriptorKey, Segwitv0>::from_str_insane(&text).ok().and_then(|m| Descriptor::new_sh_wsh(m).ok()),
+                        "sh(@)" => Miniscript::<DefiniteDescriptorKey, Legacy>::from_str_insane(&text).ok().and_then(|m| Descriptor::new_sh(m).ok()),
+                        _ => None,   // taproot: `Tr::new` validates its leaves, no permissive constructor
+                    };
+                    (d.and_then(|d| spec_from_desc(d, false)), "refused-by-the-sane-parser")
+                }
+            };
+            // (the descriptor parser of this library applies the SANE rules to taproot leaves only: in
+            // wsh / sh these scripts parse today and are judged like any other member of the pool)
+            out.count(&format!("designated-odd {} in {}: {} {}", reason, wrap.replace("(@)", "").replace(",@)", ""), how, if spec.is_some() { "-> judged" } else { "(no permissive constructor; judged the day it is accepted)" }));
+            if let Some(mut spec) = spec {
+                spec.tmpl = tmpl.clone();
+                let case = build_case_with(vec![spec.clone()], rng, &CaseOpts { version: Some(2), seqs: vec![spec.olders.iter().cloned().max_by_key(|o| (o & 0xffff, *o))] });
+                let mut h = progress_ops(&case, 0);
+                h.extend([Op::FinInp(0), Op::FinMall, Op::Extract]);
+                if h.len() > 12 { let cut = h.len() - 12; h.drain(1..1 + cut); }
+                run_history(out, &case, &h, judged);
+            }
+        }
+    }
+}
+
+/// R4 - USED PSBTs: a complete input A next to an input B that fails at EXACTLY one fallible step of
+/// finalize_input (utxo lookup / prevouts - which also stops A, after A's satisfaction succeeded -,
+/// descriptor inference, satisfaction, interpreter check), B before and after A, through every entry
+/// point, followed by the calls a wallet makes next on the used object: update again (on the failed
+/// and on the already-final input), finalize again, extract, finalize and extract once more.
+fn used_states(out: &mut Out, pool: &[Spec], judged: &mut BTreeSet<String>) {
+    let mut rng = Rng(0xC150);
+    let find = |t: &str| pool.iter().find(|s| s.tmpl == t).cloned();
+    let a_specs: Vec<Spec> = ["wsh(multi(2,K0,K1,K2))", "tr(K0,{pk(K1),pk(K2)})", "pkh(K1)", "sh(wsh(pk(K0)))", "tr(K0)"].iter().filter_map(|t| find(t)).collect();
+    let b_specs: Vec<Spec> = ["tr(K0,pk(K1))", "wsh(and_v(v:pk(K0),sha256(H0)))", "sh(multi(2,K0,K1))"].iter().filter_map(|t| find(t)).collect();
+    let mut k = 0usize;
+    for a in &a_specs { for b in &b_specs { for b_first in [false, true] {
+        let (ia, ib) = if b_first { (1usize, 0usize) } else { (0, 1) };
+        let specs = if b_first { vec![b.clone(), a.clone()] } else { vec![a.clone(), b.clone()] };
+        let case = build_case_with(specs, &mut rng, &CaseOpts { version: Some(2), seqs: vec![None, None] });
+        let mut complete_a = progress_ops(&case, ia);
+        if case.inputs[ia].keysig.is_some() && case.inputs[ia].spec.leaves.is_empty() { complete_a.push(Op::KeySig(ia, true)); }
+        let full_b = progress_ops(&case, ib);
+        // B fails at exactly this step
+        let fails: Vec<(&str, Vec<Op>)> = vec![
+            ("utxo+prevouts", { let mut v = full_b.clone(); v.push(Op::Drop(ib)); v }),
+            ("descriptor", { let mut v = full_b.clone(); v.push(if case.inputs[ib].spec.kind == Kind::Tr { Op::LeafVersion(ib) } else { Op::Corrupt(ib) }); v }),
+            ("satisfaction", vec![Op::Update(ib)]),
+            ("interpreter", { let mut v: Vec<Op> = full_b.iter().map(|o| match o { Op::Sig(i, k, _) => Op::Sig(*i, *k, false), x => x.clone() }).collect(); v.retain(|_| true); v }),
+        ];
+        for (step, ops_b) in fails {
+            // rotate the entry point so that every (A, B, order, step) sees one, and all are seen often
+            let entry = [Op::Fin, Op::FinMall, Op::FinInp(ib), Op::FinInpMall(ib), Op::OldFin, Op::OldFinMall][k % 6].clone();
+            k += 1;
+            let mut h = complete_a.clone();
+            h.extend(ops_b);
+            let n0 = h.len();
+            h.extend([entry, Op::Update(ib), Op::Update(ia), Op::Fin, Op::Extract, Op::Restore(ib), Op::Fin, Op::Extract]);
+            out.count(&format!("used-state {} fails at {}", if b_first { "B,A" } else { "A,B" }, step));
+            run_history_from(out, &case, &h, judged, n0.saturating_sub(1));
+        }
+    }}}
+}
+
+/// R3 - RAW PSBT fields no updater writes, offered next to a complete neighbour input: script fields of
+/// length 0..3, witness-program look-alikes one byte short / long, a redeem_script that does not hash
+/// to the script_pubkey, a witness_utxo with a foreign or a raw script_pubkey.  Judged: no entry point
+/// panics, a failing call leaves EVERY input byte-identical, the neighbour finalizes to the very bytes it
+/// gets alone, and whatever is finalized against the REAL utxo is a valid spend (J spend).
+fn raw_channel(out: &mut Out, pool: &[Spec], judged: &mut BTreeSet<String>) {
+    let mut rng = Rng(0xC151);
+    let find = |t: &str| pool.iter().find(|s| s.tmpl == t).cloned();
+    let nb = match find("wpkh(K2)") { Some(s) => s, None => return };
+    for t in ["wsh(multi(2,K0,K1,K2))", "sh(wsh(pk(K0)))", "sh(multi(2,K0,K1))", "sh(wpkh(K3))", "tr(K0,pk(K1))", "pkh(K1)", "multi(1,K0,K1)"] {
+        let spec = match find(t) { Some(s) => s, None => continue };
+        let case = build_case_with(vec![spec.clone(), nb.clone()], &mut rng, &CaseOpts { version: Some(2), seqs: vec![None, None] });
+        let mut ready = case.psbt0.clone();
+        for i in 0..2 { for op in progress_ops(&case, i) { apply(&case, &mut ready, &op); } }
+        // the neighbour alone
+        let reference = { let mut q = ready.clone(); apply(&case, &mut q, &Op::FinInp(1)); q.inputs[1].clone() };
+        let sb = |b: &[u8]| ScriptBuf::from_bytes(b.to_vec());
+        let h20 = [0x11u8; 20]; let h32 = [0x22u8; 32];
+        let mut scripts: Vec<(String, ScriptBuf)> = vec![];
+        for l in 0..4usize { scripts.push((format!("len{}", l), sb(&vec![0x00; l]))); }
+        scripts.push(("op0".into(), sb(&[0x00])));
+        for (name, mut v) in [("p2wpkh", [vec![0x00, 0x14], h20.to_vec()].concat()), ("p2wsh", [vec![0x00, 0x20], h32.to_vec()].concat()),
+                              ("p2sh", [vec![0xa9, 0x14], h20.to_vec(), vec![0x87]].concat()), ("p2pkh", [vec![0x76, 0xa9, 0x14], h20.to_vec(), vec![0x88, 0xac]].concat()),
+                              ("p2tr", [vec![0x51, 0x20], h32.to_vec()].concat())] {
+            scripts.push((format!("{}-exact", name), sb(&v)));
+            let short = v[..v.len() - 1].to_vec(); scripts.push((format!("{}-short", name), sb(&short)));
+            v.push(0x00); scripts.push((format!("{}-long", name), sb(&v)));
+        }
+        let mut variants: Vec<(String, Psbt)> = vec![];
+        for (name, sc) in &scripts {
+            { let mut p = ready.clone(); p.inputs[0].witness_script = Some(sc.clone()); variants.push((format!("witness_script={}", name), p)); }
+            { let mut p = ready.clone(); p.inputs[0].redeem_script = Some(sc.clone()); variants.push((format!("redeem_script={}", name), p)); }
+            { let mut p = ready.clone(); p.inputs[0].witness_utxo = Some(TxOut { value: case.inputs[0].utxo.value, script_pubkey: sc.clone() }); p.inputs[0].non_witness_utxo = None;
+              variants.push((format!("witness_utxo.spk={}", name), p)); }
+        }
+        { let mut p = ready.clone(); p.inputs[0].witness_utxo = Some(case.inputs[1].utxo.clone()); p.inputs[0].non_witness_utxo = None; variants.push(("witness_utxo=neighbour's".into(), p)); }
+        for (vname, v) in variants {
+            let foreign_utxo = vname.starts_with("witness_utxo");
+            for (ename, op) in [("finalize_mut", Op::Fin), ("finalize_mall_mut", Op::FinMall), ("finalize_inp_mut", Op::FinInp(0)), ("deprecated-finalize", Op::OldFin)] {
+                let mut q = v.clone();
+                let r = apply(&case, &mut q, &op);
+                let id = format!("{} {} {}", spec.tmpl, vname, ename);
+                if r == "panic" { out.line(&format!("J nopanic psbt raw-field {} PANIC", id), "ok"); continue; }
+                let mut bad: Option<String> = None;
+                let changed0 = q.inputs[0] != v.inputs[0];
+                if changed0 {
+                    // input 0 was finalized after all: completely rewritten ...
+                    let mut expect = psbt::Input::default();
+                    expect.witness_utxo = v.inputs[0].witness_utxo.clone(); expect.non_witness_utxo = v.inputs[0].non_witness_utxo.clone();
+                    expect.final_script_sig = q.inputs[0].final_script_sig.clone(); expect.final_script_witness = q.inputs[0].final_script_witness.clone();
+                    if !is_final(&q.inputs[0]) || q.inputs[0] != expect { bad = Some("input0-half-written".into()); }
+                    // ... and, when the PSBT told the truth about the utxo, a valid spend of it
+                    if !foreign_utxo && is_final(&q.inputs[0]) {
+                        let ss = q.inputs[0].final_script_sig.clone().unwrap_or_default();
+                        let w = q.inputs[0].final_script_witness.clone().unwrap_or_default();
+                        if judged.insert(format!("raw {} {}", id, wit_tok(&w))) { judge_spend_at(out, &case, &q.unsigned_tx, 0, &ss, &w, &format!("raw-field {}", id)); }
+                    } else if foreign_utxo { out.count("observation: finalized against a witness_utxo that is not the spent output"); }
+                }
+                // the neighbour: finalized to the bytes it gets alone, unless the call could not reach it
+                let reached = match op { Op::FinInp(_) => false, Op::OldFin => is_final(&q.inputs[0]), _ => true };
+                let taproot_blocked = foreign_utxo && false;
+                let _ = taproot_blocked;
+                if reached && q.inputs[1] != reference && !(foreign_utxo) { bad = Some("neighbour-differs-from-its-lone-finalization".into()); }
+                if !reached && q.inputs[1] != v.inputs[1] { bad = Some("untargeted-neighbour-changed".into()); }
+                if q.unsigned_tx != v.unsigned_tx || q.outputs != v.outputs { bad = Some("tx-or-outputs-changed".into()); }
+                out.count(&format!("raw-field {} {}", ename, r.split('@').next().unwrap()));
+                verdict(out, "raw-field", &id, bad);
+            }
+        }
+    }
+}
+
 /// `finalize_inp_mall_mut(i)` must behave like `finalize_mall_mut` restricted to input i
 fn judge_mall(out: &mut Out, spec: &Spec, rng: &mut Rng) {
     let case = build_case(vec![spec.clone()], rng);
@@ -2127,7 +2366,7 @@ fn judge_nopanic(out: &mut Out, pool: &[Spec], rng: &mut Rng) {
 /* ------------------------------------------------------------------ entry point */
 
 pub fn run(out: &mut Out, thorough: bool, seed: u64) {
-    std::panic::set_hook(Box::new(|_| {}));
+    if std::env::var("C14_DEBUG").is_err() { std::panic::set_hook(Box::new(|_| {})); }
     let mut rng = Rng(seed ^ 0xC14);
     let (pool, mall) = build_pool(&mut Rng(0xC14), thorough);
     out.note("descriptors", pool.len().to_string());
@@ -2191,6 +2430,14 @@ pub fn run(out: &mut Out, thorough: bool, seed: u64) {
         }
         for s in pool.iter().filter(|s| s.tmpl.contains("pkh(") && !matches!(s.kind, Kind::Pkh | Kind::Wpkh | Kind::ShWpkh)) { guarded(out, "judge_rawpkh", &s.tmpl, |out| judge_rawpkh(out, s, &mut fixed)); }
     }
+    // 3f. ROUTES x CORPUS, REFUSED-TODAY, USED STATES, RAW FIELDS (every tier)
+    {
+        let mut fixed = Rng(0xC152);
+        for s in pool.iter() { guarded(out, "all_routes", &s.tmpl, |out| all_routes(out, s, &mut fixed, &mut judged)); }
+        guarded(out, "refused_today", "-", |out| refused_today(out, &mut fixed, &mut judged));
+        guarded(out, "used_states", "-", |out| used_states(out, &pool, &mut judged));
+        guarded(out, "raw_channel", "-", |out| raw_channel(out, &pool, &mut judged));
+    }
     // 3e. relative locks: transaction version x nSequence variants
     guarded(out, "designated_lock_cases", "-", |out| designated_lock_cases(out, &pool, &mut judged));
     // 3d. updater, byte level, against the descriptor model
@@ -2199,5 +2446,5 @@ pub fn run(out: &mut Out, thorough: bool, seed: u64) {
     judge_nopanic(out, &pool, &mut Rng(0xC14B));
     let _ = std::panic::take_hook();
     out.note("distinct_nontrivial", (pool.len() + n_multi).to_string());
-    out.note("domain", "sane definite descriptors (hand-written pool x {wsh, sh-wsh, sh} + pk/pkh/wpkh/sh-wpkh + tr key/script path + enumerated fragments) x 1-3 inputs x seeded random histories (<= 12 ops) over update/add-sig/add-bad-sig/add-preimage/corrupt/drop-utxo/external-final/finalize*/extract".into());
+    out.note("domain", "definite descriptors (hand pool x {wsh, sh-wsh, sh} + pk/pkh/wpkh/sh-wpkh/bare multi + tr key/script path + enumerated fragments + ast::dimension_corpus incl. wrapper towers; xpub shapes; uncompressed keys) x 1-3 inputs x seeded random histories (<= 12 ops, 25 operation kinds) ; EVERY finalize entry point (mut / by-value / _mall / _inp / deprecated) on EVERY pool descriptor (all_routes); designated-odd scripts (repeated keys, mixed lock units, sigless / malleable / unsatisfiable branches; context-rule violations judged when accepted); used PSBT states (a complete input next to one failing at each fallible step of finalize_input, both orders, every entry point, then update / finalize / extract again); raw script fields and raw witness_utxo script_pubkeys (lengths 0-3, template look-alikes one byte short / long) next to a complete neighbour".into());
 }
